@@ -18,6 +18,38 @@ def handle (j : Json) : Except String Json := do
         ("inside", ofBool (inside (-a) (-b) (-c))), ("quad", ofBool (cutQuad (-a) (-b) (-c))),
         ("tri", ofBool (cutTri (-a) (-b) (-c))), ("kept", ofNat (keptFaces (-a) (-b) (-c)))]
     | _ => throw "three signs expected"
+  | "section" =>
+    let jV := fun (j : Json) => do
+      match j with
+      | Json.arr #[a, b, c] => pure (((← jRat a), (← jRat b), (← jRat c)) : TV.Slice.V)
+      | _ => throw "point expected"
+    let ofV := fun (p : TV.Slice.V) => Json.arr #[ofRat p.1, ofRat p.2.1, ofRat p.2.2]
+    let n ← fld j "normal" jV
+    let o ← fld j "origin" jV
+    let tol ← fld j "tol" jRat
+    let ts ← fld j "tris" (jList (fun t => do
+      match t with
+      | Json.arr #[a, b, c] => pure (((← jV a), (← jV b), (← jV c)) : TV.Slice.Tri)
+      | _ => throw "triangle expected"))
+    pure <| obj [("segments", ofList (fun (t : TV.Slice.Tri) => match sectionTri tol n o t with
+      | some (p, q) => Json.arr #[ofV p, ofV q]
+      | none => Json.null) ts)]
+  | "slice" =>
+    let jV := fun (j : Json) => do
+      match j with
+      | Json.arr #[a, b, c] => pure (((← jRat a), (← jRat b), (← jRat c)) : TV.Slice.V)
+      | _ => throw "point expected"
+    let ofV := fun (p : TV.Slice.V) => Json.arr #[ofRat p.1, ofRat p.2.1, ofRat p.2.2]
+    let n ← fld j "normal" jV
+    let o ← fld j "origin" jV
+    let tol ← fld j "tol" jRat
+    let ts ← fld j "tris" (jList (fun t => do
+      match t with
+      | Json.arr #[a, b, c] => pure (((← jV a), (← jV b), (← jV c)) : TV.Slice.Tri)
+      | _ => throw "triangle expected"))
+    pure <| obj [("pieces", ofList (fun (t : TV.Slice.Tri) => match sliceTri tol n o t with
+      | .inPlane => Json.str "in_plane"
+      | sp => ofList (fun (x : TV.Slice.Tri) => Json.arr #[ofV x.1, ofV x.2.1, ofV x.2.2]) (keptTris t sp)) ts)]
   | _ => throw s!"bad-op {op}"
 
 end Drv.C11
